@@ -210,6 +210,68 @@ def syncUpstreamCluster (m : Mgr) (name : Str) (latest : Option Spec) : Mgr × O
           | none => (m1, .updateAddFailed)
           | some m2 => (m2, .updated)
 
+/-! ### the same handler as the list of manager states after each of its WRITES
+
+`syncTrace m name latest` lists the manager state after every mutating manager call (`AddWithKey`, `Delete`,
+`DeleteWithStop`) the invocation makes, in order: what a concurrent `Get` (request routing, TLS handshake, client
+certificate verification) can observe while the single worker goroutine is inside the handler. -/
+
+def delOwnedT (c : Str) (stop : Bool) (skip : Str → Bool) : List Str → Mgr → List Mgr
+  | [], _ => []
+  | sn :: rest, m =>
+    if skip sn then delOwnedT c stop skip rest m
+    else if m.ownedBy lower sn c then
+      (m.doDelete lower sn stop) :: delOwnedT c stop skip rest (m.doDelete lower sn stop)
+    else delOwnedT c stop skip rest m
+
+def addNewT (p : Nat) (skip : Str → Bool) : List Str → Mgr → List Mgr
+  | [], _ => []
+  | n :: rest, m =>
+    if skip n then addNewT p skip rest m
+    else (m.addWithKey lower n p) :: addNewT p skip rest (m.addWithKey lower n p)
+
+def deleteForServerNamesT (m : Mgr) (clusterName : Str) : List Mgr :=
+  match m.get lower clusterName with
+  | some (_, ci) => delOwnedT lower clusterName true (fun _ => false) (loadServerNames lower ci) m
+  | none => []
+
+def addOrUpdateForServerNamesT (m : Mgr) (old : List Str) (p : Nat) : List Mgr :=
+  match m.heap[p]? with
+  | none => []
+  | some ci =>
+    let new := loadServerNames lower ci
+    if old = new then []
+    else if checkServerNameConflict lower m ci.cluster old new then []
+    else
+      delOwnedT lower ci.cluster false (fun o => decide (o ∈ new)) old m ++
+      addNewT lower p (fun n => decide (n ∈ old)) new
+        (delOwned lower ci.cluster false (fun o => decide (o ∈ new)) old m)
+
+def syncTrace (m : Mgr) (name : Str) (latest : Option Spec) : List Mgr :=
+  let clusterName := lower name
+  match latest with
+  | none => deleteForServerNamesT lower m clusterName
+  | some spec =>
+    if checkUpstreamServerNameConflict lower m clusterName spec then []
+    else
+      match m.get lower clusterName with
+      | none =>
+        if spec.bad then deleteForServerNamesT lower m clusterName
+        else
+          let ci : CI := { cluster := clusterName, aliases := spec.aliases, cert := spec.cert, ca := spec.ca }
+          let p := m.heap.length
+          let m1 := { m with heap := m.heap ++ [ci] }
+          match addOrUpdateForServerNames lower m1 [] p with
+          | none =>
+            addOrUpdateForServerNamesT lower m1 [] p ++
+              deleteForServerNamesT lower { m1 with stopped := p :: m1.stopped } clusterName
+          | some _ => addOrUpdateForServerNamesT lower m1 [] p
+      | some (p, info) =>
+        let old := loadServerNames lower info
+        if info.cluster ≠ clusterName then addOrUpdateForServerNamesT lower m old p
+        else if spec.bad then []
+        else addOrUpdateForServerNamesT lower { m with heap := m.heap.set p (info.sync spec) } old p
+
 /-- a sequence of handler invocations -/
 def runCalls (m : Mgr) : List (Str × Option Spec) → Mgr
   | [] => m
